@@ -1,9 +1,9 @@
 import ArgoVerif.Proofs.Eventual2
 import ArgoVerif.Proofs.Future2
-import ArgoVerif.Proofs.Future3
+import ArgoVerif.Proofs.Future3b
 import ArgoVerif.Proofs.Future4
 import ArgoVerif.Proofs.Future8
-import ArgoVerif.Proofs.Future9
+import ArgoVerif.Proofs.Future9b
 import ArgoVerif.Proofs.Future6
 /-
 Props.C09 — eventuals and futures become ready exactly once and wake every waiter.
